@@ -253,7 +253,7 @@ func encJSON(w *wtype, v reflect.Value) (b []byte, pi *panicInfo) {
 func decJSON(w *wtype, b []byte) (out reflect.Value, err error, pi *panicInfo) {
 	pi = protect(func() {
 		p := reflect.New(w.rt)
-		wire.ReadJSONPtr(p.Interface(), b, &err)
+		wire.ReadJSON(p.Interface(), b, &err) // as replay.go / priv_validator.go do: a non-nil pointer
 		out = p.Elem()
 	})
 	return
@@ -396,7 +396,7 @@ func roundTripWire(w *wtype, n int64) {
 				run.Violation("roundtrip/json/"+w.name+"/not-idempotent", "encode(decode(encode(v))) != encode(v) although the decoded value equals v, or the lossy mapping is not a fixed point", map[string]interface{}{"type": w.name, "case": n, "first": string(enc), "second": string(enc3)})
 			}
 		}
-		if w.name == "types.PrivValidator" && n%8 == 0 {
+		if w.name == "types.PrivValidator" && (n/4)%2 == 0 { // all four value profiles
 			privValViaFile(w, n, v)
 		}
 	}
